@@ -221,6 +221,46 @@ def ring_image(w, P):
 
 
 def run_signal_case(case):
+    """one SIGINT case in a fresh process with a hard wall-clock limit: an engine that never polls signals cannot be
+    stopped (not even by the SIGALRM guard) from inside its own process"""
+    import json
+    import subprocess
+    import sys
+    from pathlib import Path
+    from fjverif import env
+    tmp = engines.tmpdir()
+    tag = os.urandom(4).hex()
+    cpath, rpath = tmp / ('sigcase_%s.json' % tag), tmp / ('sigres_%s.json' % tag)
+    cpath.write_text(json.dumps(case))
+    cl = ['signal:' + case['engine']]
+    proc = subprocess.Popen([sys.executable, '-m', 'fjverif.sig_worker', str(cpath), str(rpath)], env=env.child_env(os.environ[env.ENV_SNAPSHOT]),
+                            cwd=os.path.dirname(os.path.dirname(os.path.dirname(os.path.abspath(__file__)))),
+                            stdout=subprocess.DEVNULL, stderr=subprocess.PIPE)
+    try:
+        _, err = proc.communicate(timeout=150)
+    except subprocess.TimeoutExpired:
+        proc.kill()
+        proc.communicate()
+        return Violation('c18:signal:%s:run-not-stopped-by-sigint' % case['engine'],
+                         {'note': 'the worker process was still running 150 s after SIGINT was sent (3 attempts, 30 s guard each)'}, cl)
+    finally:
+        for p_ in (cpath,):
+            try:
+                os.unlink(p_)
+            except OSError:
+                pass
+    if not rpath.exists():
+        raise env.HarnessError('signal worker died: %s' % err.decode('latin-1')[-1500:])
+    res = json.loads(rpath.read_text())
+    os.unlink(rpath)
+    if res['verdict'] == 'violation':
+        return Violation(res['key'], res['detail'], res['classes'])
+    if res['verdict'] == 'discard':
+        return Discard(res['reason'])
+    return Ok(res['classes'], True, sample=res['sample'])
+
+
+def run_signal_case_inprocess(case):
     # A SIGINT that python turns into KeyboardInterrupt inside a gc callback / __del__ of the harness or of
     # Hypothesis is printed as "Exception ignored" and lost; the engine then never sees it.  Collection is switched
     # off for the case, and a run that is still going after the guard is repeated: only a signal that is not
